@@ -5,7 +5,7 @@ CONSTANTS
   IVSet = {2}
   Jit = {0}
   Lat = {0}
-  MaxLen = 11
+  MaxLen = 12
   MaxT = 0
   Gaps = {}
   Bug = "none"
